@@ -454,6 +454,7 @@ func runWalletHist(c *Ctx) {
 	witnessF13(c)
 	witnessF10(c)
 	witnessF16(c)
+	restoreNoticesSettledMelt(c)
 	// every history draws from its own fork of the run's PRNG: history h of (seed, tier) can be replayed alone
 	// (VERIF_WH_ONLY=h) without running the ones before it
 	only := -1
@@ -658,6 +659,51 @@ func witnessF10(c *Ctx) {
 	hw.model = newBooksModel(hw)
 	defer hw.close()
 	restoreContinueRestore(hw, 250, "witness-f10")
+}
+
+// restoreNoticesSettledMelt (seeded change C19-7): a melt is in flight (the mint answered PENDING, the inputs are
+// locked); the payment then succeeds at the backend and NOBODY polls the quote; the wallet is lost and restored from
+// the seed. The state check that Restore sends is the first request to notice the settlement: the mint must answer
+// with the state AFTER it has settled the melt (inputs SPENT), so the restored wallet holds exactly what is unspent
+// or locked at the mint. Model-free (the mint's tables are the truth); the same with a payment that fails.
+func restoreNoticesSettledMelt(c *Ctx) {
+	for _, outcome := range []string{"succ", "failed"} {
+		hw, err := newHistWorld(c, "rsm-"+outcome, []uint{0}, 1)
+		if err != nil {
+			c.Disagree([]string{"C19"}, "setup-rsm", err.Error(), "", nil)
+			return
+		}
+		func() {
+			defer hw.close()
+			b := hw.b
+			w, m := b.wallets[0], b.mints[0]
+			b.begin("mint", 0, "mint w0 m0 100")
+			if _, err := b.OpMint(w, m, 100); err != nil {
+				c.Hist("rsm", "mint-failed")
+				return
+			}
+			hw.after("rsm/mint")
+			b.begin("melt", 0, "melt w0 m0 37 ln=pending")
+			q, err := b.OpMeltQuote(w, m, 37)
+			if err != nil {
+				c.Hist("rsm", "quote-failed")
+				return
+			}
+			st, err := b.OpMelt(w, m, q.Quote, meltScript("pending"))
+			hw.after("rsm/melt/" + st + "/" + errTag(err))
+			if st != "PENDING" {
+				c.Hist("rsm", "melt-not-pending:"+st)
+				return
+			}
+			// the payment is decided at the backend; the only request that asks is the state check of Restore
+			b.setScript(m, outcome, outcome, outcome, outcome)
+			b.begin("restore", 0, fmt.Sprintf("restore seed%d: first request to notice the %s payment", w.seed, outcome))
+			res := b.CheckRestore(w.seed, "rsm-"+outcome, false)
+			b.setScript(m)
+			c.Case("rsm/restore/"+outcome+"/"+errTag(res.err), true)
+			c.Hist("rsm", "restored-"+outcome)
+		}()
+	}
 }
 
 // restoreContinueRestore: mint until the wallet has at least nOut signed outputs on the active keyset, restore,
